@@ -2083,6 +2083,9 @@ static int32_t parse_XTA(ParserBuilder *aParserBuilder,
 
     // Reset position tracking
     tracker.setPath(ch, xpath);
+    // The lexer sets yylloc per token: without this, an error on empty input is
+    // reported at the last token of the previous parse.
+    yylloc.start = yylloc.end = tracker.position;
 
     // Parse string
     int res = 0;
@@ -2107,6 +2110,7 @@ static int32_t parseProperty(ParserBuilder *aParserBuilder, const std::string& x
 
     // Reset position tracking
     tracker.setPath(ch, xpath);
+    yylloc.start = yylloc.end = tracker.position;
 
     return utap_parse() ? -1 : 0;
 }
